@@ -169,4 +169,7 @@ def _adjust_modulus_offset(
             results.append(res)
             prog.increment()
 
-    return sorted(results, key=lambda _: _[0])
+    # Include the labels in the sort key so that the order of results with
+    # equal pseudo chi-squared values does not depend on the order in which
+    # the worker processes happen to finish.
+    return sorted(results, key=lambda _: (_[0], _[2], _[3], _[4]))
